@@ -16,7 +16,11 @@ func init() { runners["C05"] = runC05 }
 
 // c05WriteTree distributes the directives (in the given order) over an include tree under dir and
 // returns the root file. Shapes: depth up to 3, relative paths with ./ and ../, sub-directories.
-func c05WriteTree(r *RNG, dir string, j *Journal, order []int) (string, string) {
+// Every file is written in a byte layout of its own drawn from lr (layout.go: how the file begins, what stands between
+// two directives, how it ends — also without a final newline, after a directive of any kind, an include among them —
+// and whether its includes stand where they were drawn, all at the end or all at the beginning); lr == nil: a blank
+// line after every directive. The third result describes the layouts for the recorded input.
+func c05WriteTree(r, lr *RNG, dir string, j *Journal, order []int) (string, string, string) {
 	os.MkdirAll(dir, 0o755)
 	nfiles := r.Range(1, 5)
 	if len(order) < nfiles {
@@ -56,8 +60,8 @@ func c05WriteTree(r *RNG, dir string, j *Journal, order []int) (string, string) 
 	if odd && nfiles > 1 {
 		shape += "+oddnames"
 	}
+	var lays []string
 	for k, f := range files {
-		var b strings.Builder
 		// include directives for the children of this file, at random positions
 		var incs []string
 		for c := k + 1; c < nfiles; c++ {
@@ -73,28 +77,33 @@ func c05WriteTree(r *RNG, dir string, j *Journal, order []int) (string, string) 
 					relp = "../" + path.Join(path.Base(path.Dir(f.rel)), relp)
 				}
 			}
-			incs = append(incs, fmt.Sprintf("include \"%s\"\n\n", relp))
+			incs = append(incs, relp)
 		}
 		pos := make([]int, len(incs))
 		for i := range incs {
 			pos[i] = r.Intn(len(f.dirs) + 1)
 		}
+		var items []layItem
 		for i := 0; i <= len(f.dirs); i++ {
 			for q, p := range pos {
 				if p == i {
-					b.WriteString(incs[q])
+					items = append(items, layItem{Text: incs[q], Include: true})
 				}
 			}
 			if i < len(f.dirs) {
-				b.WriteString(f.dirs[i].Text())
-				b.WriteString("\n")
+				items = append(items, layDir(f.dirs[i]))
 			}
+		}
+		lay := layCanon(len(items))
+		if lr != nil {
+			lay = layDraw(lr, len(items))
+			lays = append(lays, fmt.Sprintf("%s: %s", f.rel, lay.field()))
 		}
 		full := filepath.Join(dir, f.rel)
 		os.MkdirAll(filepath.Dir(full), 0o755)
-		os.WriteFile(full, []byte(b.String()), 0o644)
+		os.WriteFile(full, []byte(lay.render(lay.arrange(items, len(items)))), 0o644)
 	}
-	return filepath.Join(dir, "main.knut"), shape
+	return filepath.Join(dir, "main.knut"), shape, strings.Join(lays, "; ")
 }
 
 // c05CanonPrint canonicalises printed journals up to the order of directives sharing date and kind:
@@ -179,6 +188,7 @@ type c05Variant struct {
 	Order  []int
 	Root   string
 	Shape  string
+	Layout string // the byte layout of each file (layFile.field)
 	Seed   int
 	Check  int
 	BalC   int
@@ -298,18 +308,29 @@ func runC05(c *Ctx) {
 				}
 				vr := &c05Variant{Order: order, Seed: r.Intn(1000) + 1}
 				dir := filepath.Join(base, fmt.Sprintf("%s%d/v%d", stream, i, v))
+				// the byte layout of the variant's files has a generator of its own (the directive orders and tree shapes of a
+				// case do not move when the layout tables change); the original, variant 0, keeps the printed layout
+				lr := c.Rng(stream+"/bytes", i*64+v)
 				if (v <= 2 && (v == 0 || r.Chance(1, 2))) || (v == 3 && stream == "order") {
 					jj := &Journal{}
 					for _, q := range order {
 						jj.Dirs = append(jj.Dirs, j.Dirs[q])
 					}
 					text, _ := jj.Text()
+					if v > 0 {
+						var items []layItem
+						for _, d := range jj.Dirs {
+							items = append(items, layDir(d))
+						}
+						lay := layDraw(lr, len(items))
+						text, vr.Layout = lay.render(items), "main.knut: "+lay.field()
+					}
 					os.MkdirAll(dir, 0o755)
 					vr.Root = filepath.Join(dir, "main.knut")
 					os.WriteFile(vr.Root, []byte(text), 0o644)
 					vr.Shape = "single"
 				} else {
-					vr.Root, vr.Shape = c05WriteTree(r, dir, j, order)
+					vr.Root, vr.Shape, vr.Layout = c05WriteTree(r, lr, dir, j, order)
 				}
 				k.vars = append(k.vars, vr)
 			}
@@ -411,18 +432,22 @@ func runC05(c *Ctx) {
 				continue
 			}
 			vr := vr
-			in := map[string]any{"journal": text, "variant": vi, "order": vr.Order, "shape": vr.Shape, "fs": vr.FS}
+			in := map[string]any{"journal": text, "variant": vi, "order": vr.Order, "shape": vr.Shape, "layout": vr.Layout, "fs": vr.FS}
 			bt.Add(func(model string) {
 				c.Compare(k.stream, k.idx, "journal-of", in, c05CanonDump(vr.Dump), c05CanonDump(model))
 			}, "c05journal", Hex("main.knut"), vr.FS)
 		}
 		for vi, vr := range k.vars[1:] {
-			in := map[string]any{"journal": text, "args": strings.Join(k.f.Args(), " "), "variant": vi + 1, "order": vr.Order, "shape": vr.Shape, "schedule_seed": vr.Seed}
+			in := map[string]any{"journal": text, "args": strings.Join(k.f.Args(), " "), "variant": vi + 1, "order": vr.Order, "shape": vr.Shape, "layout": vr.Layout, "schedule_seed": vr.Seed}
 			if k.stream == "order" {
 				in["kind"] = k.kind
 				in["variant_directives_in_order"] = c05Permuted(k.j, vr.Order)
 			}
-			c.Monitor(k.stream, k.idx, "verdict_same", in, vr.Check == b0.Check && vr.PrC == b0.PrC && vr.BalC == b0.BalC && !strings.Contains(vr.ErrOut, "panic"),
+			same := vr.Check == b0.Check && vr.PrC == b0.PrC && vr.BalC == b0.BalC && !strings.Contains(vr.ErrOut, "panic")
+			if !same || (b0.BalC == 0 && vr.BalC == 0 && vr.Bal != b0.Bal) || (b0.PrC == 0 && vr.PrC == 0 && c05CanonPrint(vr.Print) != c05CanonPrint(b0.Print)) {
+				in["variant_files"] = c05Files(vr.FS) // the variant's tree byte for byte, as read back from disk
+			}
+			c.Monitor(k.stream, k.idx, "verdict_same", in, same,
 				fmt.Sprintf("exit codes check/balance/print: original %d/%d/%d, variant %d/%d/%d\n%s", b0.Check, b0.BalC, b0.PrC, vr.Check, vr.BalC, vr.PrC, clip(vr.ErrOut)))
 			if b0.BalC == 0 && vr.BalC == 0 {
 				c.Monitor(k.stream, k.idx, "balance_bytes_same", in, vr.Bal == b0.Bal, "original:\n"+b0.Bal+"\nvariant:\n"+vr.Bal)
@@ -457,7 +482,7 @@ func runC05(c *Ctx) {
 				continue
 			}
 			vr := vr
-			in := map[string]any{"journal": text, "kind": k.kind, "variant": vi, "order": vr.Order, "shape": vr.Shape, "variant_directives_in_order": c05Permuted(k.j, vr.Order)}
+			in := map[string]any{"journal": text, "kind": k.kind, "variant": vi, "order": vr.Order, "shape": vr.Shape, "layout": vr.Layout, "variant_directives_in_order": c05Permuted(k.j, vr.Order)}
 			pj := &Journal{}
 			for _, q := range vr.Order {
 				pj.Dirs = append(pj.Dirs, k.j.Dirs[q])
@@ -474,6 +499,20 @@ func runC05(c *Ctx) {
 				fmt.Sprintf("journal.FromPath + check.Check in-process: original order %s (%s), this order %s (%s)", s0.Verdict, clip(s0.Msg), sw.Verdict, clip(sw.Msg)))
 		}
 	}
+}
+
+// c05Files decodes the wire form of a file system (c14FS) into path -> content.
+func c05Files(fs string) map[string]string {
+	res := map[string]string{}
+	if fs == "" || fs == "-" {
+		return res
+	}
+	for _, e := range strings.Split(fs, ",") {
+		if pd := strings.SplitN(e, ":", 2); len(pd) == 2 {
+			res[UnHex(pd[0])] = UnHex(pd[1])
+		}
+	}
+	return res
 }
 
 // c05Sweep is one further order of a case's directives, written to a single file and judged in-process.
